@@ -51,7 +51,7 @@ def run_item(item):
     vs, s = sym_sequence(I, N)
     I.solver.add(composition(vs, a, b))
     want, acceptable = S.deltamax_family(a, b, N)
-    rng = random.Random(N * 1009 + a * 31 + b)
+    rng = seeded_rng(N * 1009 + a * 31 + b)
     prelude = std_prelude(N, a, b)
     run_prelude(prelude)
 
